@@ -50,3 +50,17 @@ def from_values_total():
     c = sym_int("c", 0, 253 * 253 - 1)
     p = PingSequenceStart.from_ping_values(c, b)
     check(p.value == c - b, "PING value formula")
+
+
+def second_generation():
+    """no memory: the obligations hold for a start generated after other starts were generated in the process"""
+    InitSequenceStart.generate()
+    PingSequenceStart.generate()
+    AccountReplySequenceStart.generate()
+    s = InitSequenceStart.generate()
+    check(0 <= s.seq1 <= 252 and 0 <= s.seq2 <= 252, "second INIT components fit a byte-sized EO value")
+    t = InitSequenceStart.from_init_values(s.seq1, s.seq2)
+    check(t.value == s.value, "second INIT from_init_values reproduces the value")
+    p = PingSequenceStart.generate()
+    check(0 <= p.seq1 < 253 * 253 and 0 <= p.seq2 <= 252, "second PING components fit")
+    check(PingSequenceStart.from_ping_values(p.seq1, p.seq2).value == p.value, "second PING from_ping_values reproduces the value")
